@@ -9,6 +9,7 @@ from .core import Prop
 
 LEVELS = [-200, -100, 0, 100, 200]
 LEVELS7 = [-300, -200, -100, 0, 100, 200, 300]
+MULTI_RATIOS = [[1, 2], [1, 0, 2], [2, 1, 0], [1, 3, 2], [3, 0]]
 
 
 def two_distinct(s):
@@ -77,6 +78,23 @@ class C04(Prop):
                 continue
             yield {"kind": "seq", "law": rng.choice(["linear", "sat"]), "samples": s, "ratios": [1]}
             yield {"kind": "refine", "law": rng.choice(["linear", "sat"]), "samples": s, "ratios": [1], "seed": rng.randrange(1 << 30)}
+            # several proportional points assessed together (the first point decides; an unloaded point - factor 0 - and any
+            # layout of the load_step labels must not change what is counted at any point)
+            yield {"kind": "multi", "law": rng.choice(["linear", "sat"]), "samples": s, "ratios": rng.choice(MULTI_RATIOS),
+                   "labels": rng.choice(list(hcm.LABELS))}
+        for _ in range(nrand // 3):
+            # near ties: ranges / maxima that differ by 1e-6 relative (exact integers)
+            n = rng.randint(3, 10)
+            s = [rng.choice(hcm.NEAR_TIE_LEVELS) for _ in range(n)]
+            if two_distinct(s):
+                yield {"kind": "seq", "law": "linear", "samples": s, "ratios": [1]}
+        # exhaustive small scope for the multi-point path
+        for n in range(2, 5):
+            for s in itertools.product(LEVELS, repeat=n):
+                if two_distinct(s):
+                    h = sum(abs(x) for x in s) // 100 + n
+                    yield {"kind": "multi", "law": "linear", "samples": list(s), "ratios": MULTI_RATIOS[h % len(MULTI_RATIOS)],
+                           "labels": list(hcm.LABELS)[h % len(hcm.LABELS)]}
 
     def _impl_selected(self, case):
         return True
@@ -120,8 +138,26 @@ class C04(Prop):
         rows = hcm.collective_rows(rec, 1)
         return rows
 
+    def _oracle_multi(self, case):
+        s, law, ratios = case["samples"], case["law"], case["ratios"]
+        self.stats["multi_cases"] = self.stats.get("multi_cases", 0) + 1
+        det, rec = hcm.run_detector(s, ratios, hcm.StubLaw(law), case.get("labels", "0..n-1"))
+        rows = hcm.collective_rows(rec, len(ratios))
+        for k, f in enumerate(ratios):
+            p2 = sorted((int(r["loads_min"][k]), int(r["loads_max"][k])) for r in rows if r["run_index"][k] == 2)
+            want = [(f * a, f * b) for a, b in hcm.periodic_rainflow(s)]
+            if p2 != want:
+                return (f"point {k} (factor {f}) of {ratios}, load_step labels {case.get('labels')}: pass-2 load ranges {p2} != closed cycles of the "
+                        f"repeated sequence {want} (sequence {s})", junction_failure_class(s))
+            for r in rows:
+                if not r["is_closed_hysteresis"][k] and r["run_index"][k] != 1:
+                    return (f"point {k}: half-counted (Memory 3) hysteresis in pass {r['run_index'][k]} (sequence {s})", junction_failure_class(s))
+        return None
+
     def oracle(self, case):
         s, law = case["samples"], case["law"]
+        if case["kind"] == "multi":
+            return self._oracle_multi(case)
         rows = self._pass2(s, law)
         if case["kind"] == "seq":
             p2 = sorted((int(r["loads_min"][0]), int(r["loads_max"][0])) for r in rows if r["run_index"][0] == 2)
